@@ -378,6 +378,9 @@ def run_kernel_op(f, accel, mem):
             v = scale_round(v, sc, sh, rmode) + o["zero_point"] if (sc, sh) != (1, 0) else v + o["zero_point"]
         elif mode == "ABS":
             v = scale_round(np.abs(a), sc, sh, rmode) + o["zero_point"]
+        elif mode == "LRELU":
+            # H-model (adopted by the bring-up rule, DESIGN 8.2): non-negative values pass unchanged, negative ones are multiplied by the OFM scale (= alpha)
+            v = np.where(a >= 0, a, scale_round(a, sc, sh, rmode)) + o["zero_point"]
         else:
             raise Unmodelled("elementwise %s" % mode)
     else:
